@@ -195,7 +195,7 @@ Section MsProofs.
   Proof.
     intro H. unfold build_doc in H.
     mraise H H1. mraise H H2. mbind H u3 H3. cbv zeta in H. mbind H m0 Hm0. mbind H s Hs.
-    mbind H ds Hds. mbind H migs' Hmigs. mraise H Htr. injection H as <-.
+    mbind H ds Hds. mbind H migs' Hmigs. mbind H kept0 Htr. injection H as <-.
     do 3 eexists. split; [cbn [app]; reflexivity|].
     destruct (b_pulses s); [left; reflexivity|right; eexists; reflexivity].
   Qed.
